@@ -447,7 +447,9 @@ pub fn eval(case: &J) -> Outcome {
 pub fn gen_sizes(rng: &mut Rng, _k: usize, _tier: &str) -> J {
     let pickn = |rng: &mut Rng| *rng.pick(&[0i64, 1, 3, 10, 1000]);
     json!({"kind": *rng.pick(&["map", "join", "set"]), "l": pickn(rng), "r": pickn(rng),
-           "offset": if rng.chance(1, 2) { json!(rng.range(0, 12)) } else { J::Null }, "limit": if rng.chance(1, 2) { json!(rng.range(0, 12)) } else { J::Null },
+           // (one value in eight beyond every table size: i64::MAX, and u64::MAX, which does not fit the i64 the size is computed in)
+           "offset": if rng.chance(1, 2) { if rng.chance(1, 8) { json!(*rng.pick(&[9223372036854775807u64, 18446744073709551615])) } else { json!(rng.range(0, 12)) } } else { J::Null },
+           "limit": if rng.chance(1, 2) { if rng.chance(1, 8) { json!(*rng.pick(&[9223372036854775807u64, 18446744073709551615])) } else { json!(rng.range(0, 12)) } } else { J::Null },
            "left_unique": rng.chance(1, 2), "right_unique": rng.chance(1, 2), "join": *rng.pick(&["inner", "left", "right", "full"]), "set": *rng.pick(&["union", "intersect", "except"])})
 }
 
